@@ -432,14 +432,15 @@ func (s *writer) routine() {
 func (s *writer) popPackets() []mqttp.IFace {
 	var packets []mqttp.IFace
 	if s.isAlive() {
+		// what has been sent before (by an earlier connection of the session) goes out again before
+		// anything that has never been sent: a new message slipping in between would reach the client
+		// ahead of an older one of the same publisher
 		if pkt := s.pubrelMessages.Remove(); pkt != nil {
 			p := pkt.(mqttp.IFace)
 			packets = append(packets, p)
 			s.pubOut.store(p, true)
 			s.metric.OnAddUnAckSent(1)
-		}
-
-		if pkt := s.qos12PopPacket(); pkt != nil {
+		} else if pkt := s.qos12PopPacket(); pkt != nil {
 			packets = append(packets, pkt)
 		}
 
@@ -658,6 +659,17 @@ func (s *writer) getQueuedPackets() vlpersistence.PersistedPackets {
 		}
 	}
 
+	// [MQTT-4.6.0-1] what is sent again is sent in the order in which it was sent: first what this
+	// connection has transmitted, in that order, then what still waited for its retransmission -
+	// sent, by an earlier connection, after everything this one has repeated (popPackets serves
+	// retransmissions before anything new)
+	for _, pkt := range s.pubOut.drain() {
+		if e := packetEncode(&unacknowledged{pkt}); e != nil {
+			packets.UnAck = append(packets.UnAck, e)
+		}
+		s.metric.OnSubUnAckSent(1)
+	}
+
 	for m = s.pubrelMessages.Remove(); m != nil; m = s.pubrelMessages.Remove() {
 		if pkt, ok := m.(mqttp.IFace); ok {
 			if e := packetEncode(&unacknowledged{pkt}); e != nil {
@@ -665,18 +677,6 @@ func (s *writer) getQueuedPackets() vlpersistence.PersistedPackets {
 			}
 		}
 	}
-
-	s.pubOut.messages.Range(func(k, v interface{}) bool {
-		if pkt, ok := v.(mqttp.IFace); ok {
-			if e := packetEncode(&unacknowledged{pkt}); e != nil {
-				packets.UnAck = append(packets.UnAck, e)
-			}
-			s.metric.OnSubUnAckSent(1)
-		}
-
-		s.pubOut.messages.Delete(k)
-		return true
-	})
 
 	return packets
 }
